@@ -163,6 +163,53 @@ struct LawRunner
                 fail(where, "equal-text", "equal trees print differently: '" + s1 + "' vs '" + s2 + "'", e);
         }
 
+        // ---- text, change below, text again: "later changes to either do not affect the other" also means that a changed tree and a
+        //      fresh clone of it agree in every observation (equal both ways, same text), however often the text was asked for before
+        {
+            expression_t w = e.clone_deeper();
+            std::string before, after, fresh_text, ex;
+            if (safe_str(w, before, ex)) {
+                // replace the deepest integer constant below the root by one that prints differently
+                std::vector<Path> wpaths;
+                Path wp;
+                collect(w, wp, wpaths);
+                const Path* deepest = nullptr;
+                for (auto& q : wpaths) {      // an integer constant keeps every tree well formed (a binder or a callee slot would not take one)
+                    if (q.empty() || (deepest != nullptr && q.size() <= deepest->size()))
+                        continue;
+                    const expression_t& leaf = at(w, q);
+                    if (leaf.get_kind() == CONSTANT && leaf.get_type().is_integral() && !leaf.get_type().is_string())
+                        deepest = &q;
+                }
+                if (deepest != nullptr) {
+                    expression_t* cur = &w;
+                    for (auto i : *deepest)
+                        cur = &cur->get(i);
+                    *cur = expression_t::create_constant(31337);
+                    expression_t fresh = w.clone_deeper();
+                    ++n_checks;
+                    if (!w.equal(fresh) || !fresh.equal(w))
+                        fail(where, "change-then-clone-equal", "a changed tree and its fresh deep clone are not equal()", e);
+                    else if (safe_str(w, after, ex) && safe_str(fresh, fresh_text, ex) && after != fresh_text)
+                        fail(where, "change-then-text", "after replacing a descendant the tree still prints '" + after + "' while its fresh deep clone prints '" + fresh_text + "'", e);
+                    // set_type on a descendant must not freeze the text of the ancestors either
+                    expression_t w2 = e.clone_deeper();
+                    std::string t0;
+                    if (safe_str(w2, t0, ex)) {
+                        expression_t* cur2 = &w2;
+                        for (auto i : *deepest)
+                            cur2 = &cur2->get(i);
+                        *cur2 = expression_t::create_constant(-31337);
+                        cur2->set_type(type_t::create_primitive(Constants::INT));
+                        expression_t fresh2 = w2.clone_deeper();
+                        std::string a2, f2;
+                        if (safe_str(w2, a2, ex) && safe_str(fresh2, f2, ex) && a2 != f2)
+                            fail(where, "change-then-text", "after replacing a descendant and setting its type the tree prints '" + a2 + "', its fresh deep clone '" + f2 + "'", e);
+                    }
+                }
+            }
+        }
+
         // ---- subst
         {
             std::set<symbol_t> syms;
